@@ -62,10 +62,12 @@ func main() {
 		f()
 	}
 	guardPart("options", func() { partOptions(r, refused) })
+	guardPart("optvalues", func() { partOptionValues(r, refused) })
 	guardPart("e2e", func() { partE2E(r, refused) })
 	guardPart("phases", func() { partPhases(r, refused) })
 
 	for _, c := range []string{"phases_cases", "phases_cases_with_reattempt", "phases_cases_with_one_attempt", "options_calls_streamable", "options_calls_legacy-sse", "options_sequences_with_retry", "options_waits_compared", "options_real_gaps_bounded_below", "options_real_wait_calls",
+		"optvalues_calls_streamable", "optvalues_calls_legacy-sse", "optvalues_clients_built_after_a_different_option_was_created", "optvalues_clients_built_concurrently", "optvalues_sequences_with_retry", "optvalues_waits_compared",
 		"direct_scripts_enumerated", "direct_scripts_sampled", "direct_waits_compared", "direct_sequences_with_retry",
 		"cancellations_during_wait", "e2e_scripts_streamable", "e2e_scripts_legacy-sse", "e2e_sequences_with_retry", "validate_configs"} {
 		if r.Counter(c) == 0 && !panicked {
@@ -79,6 +81,10 @@ func main() {
 		"cancellation: from inside every wait j and every attempt i of an all-transient script, and before the call. "+
 		"end to end: Streamable and legacy-SSE clients, every pruned script of length <= MaxRetries+2 over 23 wire outcomes for MaxRetries 1 (quick) / 1..2 (thorough), samples beyond, "+
 		"boundary MaxRetries values, no-retry clients, real (unshrunk) waits on a subset. "+
+		"option values: tables of 26 retry option values (15 x WithSimpleRetry(n) over 14 different n, 11 x WithRetry(cfg), among them two values from one cfg variable modified in between, cfg variables modified after the value was made) created in one pass "+
+		"(first table in a fixed order, the others in seeded order, prepared alternately for the two HTTP clients) before any client exists; clients constructed from the values in creation order, reverse order (other back-end), shuffled with further values created "+
+		"between construction and use, one value for two clients used alternately, fresh clients whose retried request is initialize, all clients constructed concurrently while 64 further values are created, and creation / construction / use interleaved; "+
+		"every client driven with a persistent transient failure, MaxRetries failures then success, a failure then 404, and success, judged against the configuration ITS value was created with. "+
 		"phases: for both HTTP clients every HTTP exchange of every operation is failed in turn (legacy: stream-opening GET and endpoint wait inside the first request, request POST of initialize and of a later call, "+
 		"both notification POSTs, the POST answering a server request; Streamable: initialize POST, later POST, both notification POSTs, listening-stream GET, DELETE, answer POST) with each of 22 statuses "+
 		"x 15 bodies (empty, JSON-RPC error objects, texts mentioning connection refused / reset / i/o timeout / EOF / '502 ' / 'code 503' / 'status code: NNN') x 6 content types (quick: every status x body and status x content type pair, thorough: the product), "+
@@ -92,6 +98,7 @@ func main() {
 			"factors off the grid are restricted to values whose powers are exact in binary floating point; a non-integral nanosecond product may be rounded either way",
 			"float64-to-Duration overflow behaviour is that of the machine the check runs on (amd64 here)",
 			"WithSimpleRetry(n) stands for {MaxRetries: n, 500ms, 2.0, 8s} (its documented defaults) before clamping",
+			"option values: RetryConfig is passed to WithRetry by value; a client that nevertheless behaved as the caller's cfg variable said LATER would be counted (optvalues_cfg_variable_modified_later_followed_the_later_content), not judged",
 			"when several retry options are given the statement does not say which governs: a call is accepted when attempts, result and waits all follow ONE of them (the library was observed to follow the last)",
 			"a NaN factor has no nearest in-range value: any wait sequence Initial x F^(k-1) capped at Max with 1 <= F <= 10 is accepted",
 			"phases: one call of the client's HTTPReqHandler is one attempt of the library (net/http may replay a GET/DELETE on a dead keep-alive connection by itself; arrivals at the server are recorded, not judged)",
